@@ -86,7 +86,21 @@ impl Match {
     pub fn node_id(&self, name: &str) -> Option<NodeId> {
         self.symbols.find(name)
     }
+
+    /// Return the IDs of constant nodes matched by literal constants in the
+    /// pattern (see [`Pattern::constant`]).
+    pub fn literal_constants(&self) -> impl Iterator<Item = NodeId> + '_ {
+        self.symbols
+            .symbols
+            .iter()
+            .filter(|(name, _)| *name == LITERAL_CONSTANT)
+            .map(|(_, node_id)| *node_id)
+    }
 }
+
+/// Key under which constant nodes matched by literal constants are recorded
+/// in a [`SymbolMap`]. This is not a valid symbol name.
+const LITERAL_CONSTANT: &str = "";
 
 /// Absolute tolerance for matching float constants against constant patterns.
 const CONST_TOLERANCE: f32 = 1e-4;
@@ -487,7 +501,12 @@ impl Pattern {
                 }
             }
             (PatternKind::Constant(const_pat), Node::Constant(const_node)) => {
-                const_pat.matches(const_node)
+                if const_pat.matches(const_node) {
+                    symbols.add(LITERAL_CONSTANT, node_id);
+                    true
+                } else {
+                    false
+                }
             }
             (PatternKind::Symbol(sym_pat), Node::Constant(_) | Node::Value(_)) => {
                 if sym_pat.constant && !matches!(node, Node::Constant(_)) {
